@@ -7,6 +7,7 @@
    ([print_collision_without_name_ok]). *)
 From Coq Require Import List String Ascii Bool Lia.
 From SCC Require Import Lang.FunSyn Model.Check.
+From SCC Require Export Sem.FunNames.
 Import ListNotations.
 Open Scope string_scope.
 Open Scope list_scope.
@@ -25,18 +26,7 @@ Section FtyInd.
     end.
 End FtyInd.
 
-(* ---------- identifier-like names ---------- *)
-Definition delim (c : ascii) : bool :=
-  Ascii.eqb c "["%char || Ascii.eqb c "]"%char || Ascii.eqb c ","%char || Ascii.eqb c " "%char.
-Fixpoint no_delim (s : string) : bool :=
-  match s with EmptyString => true | String c r => negb (delim c) && no_delim r end.
-Definition name_ok (s : string) : bool := no_delim s && negb (String.eqb s "i64").
-Fixpoint ty_names_ok (t : fty) : bool :=
-  match t with
-  | FI64 => true
-  | FDecl n args => name_ok n && (fix go (l : list fty) : bool := match l with [] => true | a :: r => ty_names_ok a && go r end) args
-  end.
-Definition tys_names_ok (l : list fty) : bool := forallb ty_names_ok l.
+(* ---------- identifier-like names: definitions in Sem/FunNames.v ---------- *)
 Lemma ty_names_ok_decl : forall n args, ty_names_ok (FDecl n args) = name_ok n && tys_names_ok args.
 Proof.
   intros n args. reflexivity.
